@@ -3,7 +3,7 @@
    instantiated with the facts regenerated from server.py (the statements of the dispatcher's
    finally block with their guards, the workers' async-with items, detach-first, decorators). *)
 From Coq Require Import ZArith List Bool String.
-From Verif Require Import Lib.Sx Lib.Facts Model.Transfer Proofs.Transfer Proofs.TransferGen Gen.Dispatch.
+From Verif Require Import Lib.Sx Lib.Facts Model.Transfer Proofs.Transfer Proofs.TransferGen Gen.Dispatch Gen.Workers.
 Import ListNotations.
 Open Scope list_scope.
 
@@ -12,8 +12,11 @@ Open Scope list_scope.
    configuration, cancels and awaits all tasks, closes listener / data / control, returns the port,
    releases the slots and pops the table entry.  Computes false if e.g. `stream.close()` or
    `connection.data_connection.close()` disappears or a worker stops using `async with`. *)
-Lemma C12_translator_ok : translator_ok = true.
-Proof. vm_compute. reflexivity. Qed.
+Lemma C12_translator_ok : Dispatch.translator_ok = true /\ Workers.translator_ok = true.
+Proof. vm_compute. split; reflexivity. Qed.
+(* the two translators agree on the workers' structure (Proofs/TransferGen.v) *)
+Lemma C12_translators_agree : translators_agree = true.
+Proof. exact gen_translators_agree. Qed.
 Lemma C12_facts_ok : sound12 genF = true.
 Proof. vm_compute. reflexivity. Qed.
 
@@ -29,7 +32,7 @@ Proof. vm_compute. reflexivity. Qed.
 Theorem C12_end_releases_all_partial : forall st ev,
   reachable genF st -> alive (ss st) = true -> hole_free genF st = true -> ends ev = true ->
   ledger_empty (ledger genF (unwind genF (fst (step genF st ev)))) = true.
-Proof. intros st ev Hr Ha Hh He. exact (end_releases_all_reachable genF st ev C12_facts_ok Hr Ha Hh He). Qed.
+Proof. exact (fun st ev Hr Ha Hh He => end_releases_all_reachable genF st ev C12_facts_ok Hr Ha Hh He). Qed.
 Print Assumptions C12_end_releases_all_partial.
 
 (* the same for a session that ends because a reaped task raised (a cancelled worker: F2; a socket
@@ -46,10 +49,7 @@ Print Assumptions C12_end_by_failed_task_partial.
 Theorem C12_unwinding_terminates : forall st w,
   reachable genF st -> In w (ws st) -> w_leak w = false -> hole genF w = false ->
   terminal (w_stage (fst (wrun genF (List.length (wf_ctx (wfof genF w)) + 1) (fst (cancel genF w))))) = true.
-Proof.
-  intros st w Hr Hin. apply unwinding_terminates.
-  pose proof (reachable_ok genF st Hr) as Hk. unfold state_ok in Hk. rewrite forallb_forall in Hk. exact (Hk w Hin).
-Qed.
+Proof. exact (unwinding_terminates_reachable genF). Qed.
 Print Assumptions C12_unwinding_terminates.
 
 (* Server.close(): the main listener is closed, every session ends and unwinds, all ledgers empty *)
